@@ -87,6 +87,16 @@ func (m *refLRU) SetDirty(key uint64, d bool) bool {
 	return false
 }
 
+// Restore: the resident entry becomes the most recently used one; nothing
+// else changes. A key that is not resident is left alone.
+func (m *refLRU) Restore(key uint64) bool {
+	if i := m.find(key); i >= 0 {
+		m.front(i)
+		return true
+	}
+	return false
+}
+
 func (m *refLRU) State() (keys, ids []uint64, dirty []bool, ml, ll int) {
 	for _, x := range m.e {
 		keys = append(keys, x.key)
@@ -97,7 +107,7 @@ func (m *refLRU) State() (keys, ids []uint64, dirty []bool, ml, ll int) {
 }
 
 func checkC15(c *core.Ctx) []core.Floor {
-	c.Rule = "operation sequences over {store clean page, store dirty page, lookup, mark dirty, mark clean} x keys, run on the real LRUCache holding real nodes and on a 40-line reference model; after EVERY step the return value and the resident entries (recency order, stored page identity, dirty flags, map and list sizes) must be equal. Exhaustive: all sequences of the stated depth over 3-4 keys at capacities 1-3; random: long sequences at capacities 4-64 with dirty ratios 0-100%. Distinct = sequence x capacity; non-trivial = the sequence caused an eviction or a refusal in the model."
+	c.Rule = "operation sequences over {store clean page, store dirty page, lookup, mark dirty, mark clean, store the resident page object itself again (as a flush does)} x keys, run on the real LRUCache holding real nodes and on a 50-line reference model; after EVERY step the return value and the resident entries (recency order, stored page identity, dirty flags, map and list sizes) must be equal. Exhaustive: all sequences of the stated depth over 3-4 keys at capacities 1-3; random: long sequences at capacities 4-64 with dirty ratios 0-100%. Distinct = sequence x capacity; non-trivial = the sequence caused an eviction or a refusal in the model."
 	c.Assume = []string{"marking a resident page dirty/clean happens through the node pointer, as the B+ tree code does (no recency change)"}
 	drv := mustDriver(c, false)
 	type batch struct {
